@@ -842,6 +842,17 @@ void Exec::do_step(const Step& st, const Client& cl, int depth) {
     }
     case OP_SET_VEC:
     case OP_SET_VEC_UNKNOWN: {
+      if (st.op == OP_SET_VEC && st.len == -4 && cur && cur->discovered && vn.size() > 1) {
+        // the usual way to resize a solution with several vector parameters: all of them to one common new length
+        Step one = st;
+        one.len = 1 + (int)(st.u % 40);
+        for (size_t i = 0; i < vn.size() && !stop; ++i) {
+          one.a = (int)i;
+          one.u = st.u + 0x9E3779B97F4A7C15ull * (i + 1);
+          do_step<S>(one, cl, depth);
+        }
+        return;
+      }
       const bool unk = st.op == OP_SET_VEC_UNKNOWN;
       int len = st.len < 0 ? 0 : st.len % 41;
       if (cur && !vn.empty() && st.len == -1) len = (int)cur->v[vn[(size_t)st.a % vn.size()]].size() % 41;            // same length, other values
@@ -1159,10 +1170,12 @@ void Exec::do_step(const Step& st, const Client& cl, int depth) {
         return;
       }
       // solution-dependent functions that are not covered by their own step kinds in the empty state
-      int f = st.a % 4;
-      fatal_protocol("F2c_call_before_init", f == 0 ? "masa_eval_posterior_mean" : f == 1 ? "masa_display_param" : f == 2 ? "masa_purge_default_param" : "masa_get_vec", [&] {
+      int f = st.a % 6;
+      fatal_protocol("F2c_call_before_init", f == 0 ? "masa_eval_posterior_mean" : f == 1 ? "masa_display_param" : f == 2 ? "masa_purge_default_param" : f == 3 ? "masa_get_vec" : "masa_eval_central_moment", [&] {
         std::vector<S> v;
         switch (f) {
+          case 4: (void)MASA::masa_eval_central_moment<S>(-2); break;              // the check comes before any look at the arguments
+          case 5: (void)MASA::masa_eval_central_moment<S>(-2147483647 - 1); break;
           case 0: (void)MASA::masa_eval_posterior_mean<S>(); break;
           case 1: if (C) ::masa_display_param(); else MASA::masa_display_param<S>(); break;
           case 2: if (C) ::masa_purge_default_param(); else MASA::masa_purge_default_param<S>(); break;
